@@ -24,12 +24,12 @@ Property clause → theorem
     kept equal to the list on chain (double increment, `x/auction/keeper/dutch.go:554-559` +
     `x/vault/keeper/vault.go:605-606`): `d3_counterexample`, `d3_panics_when_counter_exceeds_cap`,
     `d3_underflow_counterexample`; witness replayed first in the harness run (scenario `corpus.d3`).
-  - **D6** `isD6`: the second-generation borrow sweep calls `LiquidateIndividualBorrow` outside any wrapper:
-    `unwrapped_loop_leaks_counterexample` (model of `x/liquidationsV2/keeper/liquidate.go:248-254`), against
-    `unwrapped_loop_ok_if_no_failure`; witnesses: harness `uloop` lines.
-* every unit of work the property names sits in its own wrapper → `units_of_work_wrapped` (table), except the
-  second-generation borrow loop (`d6_borrow_loop_has_no_unit_partial` documents the gap as a table fact that holds
-  before and after a repair).
+  - **D6** (repaired in the repository by `c15713f` while this check was built; reproduced on the tree before it):
+    the second-generation borrow sweep called `LiquidateIndividualBorrow` on the live context. What that does is
+    `unwrapped_loop_leaks_counterexample` (model of the old `x/liquidationsV2/keeper/liquidate.go:248-254`), against
+    `unwrapped_loop_ok_if_no_failure`. The table obligations now demand the wrapper: taking it away again fails
+    `unwrapped_calls_reviewed`, `units_of_work_wrapped` and `table_pins`, and the harness reports the leak (`uloop` lines).
+* every unit of work the property names sits in its own wrapper → `units_of_work_wrapped` (table).
 * the table is not empty / not stale → `table_pins`.
 
 Level: proof of the wrapper logic and of the table obligations; what a Go panic and a real store write do is
@@ -398,11 +398,6 @@ def conditionalD3 : List (String × String × String) := [
   ("liquidationsV2.BeginBlocker", "LiquidateVaults", "slice totalVaults[start:end]")
 ]
 
-/-- **D6**: the per-borrow step of the second-generation sweep and everything it calls run on the live context -/
-def isD6 (e : Entry) : Bool :=
-  e.blocker == "liquidationsV2.BeginBlocker" &&
-    (e.inFn == "LiquidateIndividualBorrow" || (e.inFn == "LiquidateBorrows" && e.callee == "k.LiquidateIndividualBorrow"))
-
 /-- read, judged panic-free for states the keepers can produce, exercised by the environment-fault runs — NOT proved:
 `sdk.Int`/`sdk.Dec` arithmetic on stored collector thresholds (panics only beyond 256 bits), coin construction
 from stored asset denoms, the surplus/debt kick-off (returns its errors to `Liquidate`, which the blocker logs),
@@ -423,7 +418,7 @@ def key (e : Entry) : String × String × String := (e.blocker, e.inFn, e.callee
 
 def reviewed (e : Entry) : Bool :=
   pureHelpers.contains e.callee || storeAccess.contains (key e) || expanded.contains (key e) || opsTotal.contains (key e) ||
-  conditionalD3.contains (key e) || isD6 e || reviewedUnproved.contains (key e)
+  conditionalD3.contains (key e) || reviewedUnproved.contains (key e)
 
 set_option maxRecDepth 200000 in
 /-- **Table obligation**: every call and panicking operator outside every wrapper is on the reviewed list. -/
@@ -444,6 +439,7 @@ theorem units_of_work_wrapped :
     hasUnit "liquidation.BeginBlocker" "LiquidateVaults" true 1 = true ∧        -- one vault liquidation (gen 1)
     hasUnit "liquidation.BeginBlocker" "LiquidateBorrows" true 1 = true ∧       -- one borrow liquidation (gen 1)
     hasUnit "liquidationsV2.BeginBlocker" "LiquidateVaults" true 1 = true ∧     -- one vault liquidation (gen 2)
+    hasUnit "liquidationsV2.BeginBlocker" "LiquidateBorrows" true 1 = true ∧    -- one borrow liquidation (gen 2; D6 repaired)
     hasUnit "auction.BeginBlocker" "BeginBlocker" true 1 = true ∧               -- surplus / debt activator per collector mapping
     hasUnit "auction.BeginBlocker" "RestartDutchAuctions" true 1 = true ∧       -- one auction update (gen 1, vault auctions)
     hasUnit "auction.BeginBlocker" "RestartDutchLendAuctions" true 1 = true ∧   -- one auction update (gen 1, lend auctions)
@@ -455,23 +451,16 @@ theorem units_of_work_wrapped :
     hasUnit "esm.BeginBlocker" "BeginBlocker" false 1 = true ∧                  -- the emergency-shutdown hook as a whole
     hasUnit "lend.BeginBlocker" "BeginBlocker" false 1 = true := by decide
 
-/-- **D6 as a table fact** (true before and after a repair): either the second-generation borrow loop has its own
-unit, or its per-borrow call is listed as running unwrapped. -/
-theorem d6_borrow_loop_has_no_unit_partial :
-    hasUnit "liquidationsV2.BeginBlocker" "LiquidateBorrows" true 1 = true ∨
-    (unwrapped.any fun e => e.blocker == "liquidationsV2.BeginBlocker" && e.callee == "k.LiquidateIndividualBorrow") = true := by decide
-
 /-- nothing outside the two vault sweeps depends on the vault counter, and nothing else is conditional -/
 theorem d3_only_in_the_vault_sweeps :
     (unwrapped.filter fun e => conditionalD3.contains (key e)).length ≤ 2 := by decide
 
 set_option maxRecDepth 200000 in
-/-- **Pins**: exactly the twelve Begin/EndBlockers of the ten DeFi modules; sixteen wrapper sites (seventeen once the
-second-generation borrow loop has its own unit, i.e. D6 repaired); on the pinned tree 216 unwrapped + 206 wrapped
-entries — stated as lower bounds because a repair of D3/D6 legitimately moves about thirty entries from one side
-to the other — and spot entries, so that an extractor that returns little or nothing fails here. -/
+/-- **Pins**: exactly the twelve Begin/EndBlockers of the ten DeFi modules and exactly the seventeen wrapper sites;
+194 unwrapped + 226 wrapped entries on the pinned tree — stated as lower bounds because a repair of D3 legitimately
+removes two of them — and spot entries, so that an extractor that returns little or nothing fails here. -/
 theorem table_pins :
-    blockers.length = 12 ∧ (units.length = 16 ∨ units.length = 17) ∧ unwrapped.length ≥ 150 ∧ wrappedEntries.length ≥ 150 ∧
+    blockers.length = 12 ∧ units.length = 17 ∧ unwrapped.length ≥ 150 ∧ wrappedEntries.length ≥ 150 ∧
     entries.length ≥ 380 ∧
     (blockers.map (·.name)) = ["liquidity.BeginBlocker", "liquidity.EndBlocker", "liquidation.BeginBlocker",
       "liquidationsV2.BeginBlocker", "auction.BeginBlocker", "auctionsV2.BeginBlocker", "rewards.BeginBlocker",
